@@ -186,6 +186,32 @@ def case_contest(tid, N, crossings, audit_type, use_style, rng):
     return guard(rec, go)
 
 
+def case_audit(tid, N, crossings_by_contest, rng):
+    """Audit.find_sample_size over several contests: each contest's estimate is the largest among ITS assertions"""
+    from shangrla.core.Audit import CVR
+    from . import compare
+    names = [f"k{j}" for j in range(len(crossings_by_contest))]
+    rec = {"kind": "audit", "tid": tid, "N": N, "cross": [[c if c else N for c in cr] for cr in crossings_by_contest]}
+
+    def go():
+        contests = {}
+        for name, cr in zip(names, crossings_by_contest):
+            con = mk_contest("CARD_COMPARISON", "PLURALITY", N, float(ALPHA), use_style=True)
+            con.id = con.name = name
+            con.assertions = {}
+            for k, c in enumerate(cr):
+                hh = {"c": c, "seen": []}
+                a = mk_assertion(con, N, hh, margin=0.2 + k / 10, loser=("L" if k % 2 == 0 else "X"))
+                con.assertions[f"a{k}"] = a
+            contests[name] = con
+        audit = compare.mk_audit(True, N)
+        audit.error_rate_1, audit.error_rate_2, audit.reps = 0.25, 0, None
+        cvrs = [CVR(id=f"c{j}", votes={n_: {"W": 1} for n_ in names}, sample_num=j + 1, sampled=False) for j in range(N)]
+        audit.find_sample_size(contests, cvrs=cvrs)
+        return {"sizes": [int(contests[n_].sample_size) for n_ in names]}
+    return guard(rec, go)
+
+
 def run(pid, tier):
     rep = Report(pid, tier)
     core.import_repo()
@@ -231,6 +257,10 @@ def run(pid, tier):
         cr = [rng.randint(0, N) for _ in range(rng.randint(1, 3))]
         at = rng.choice(["CARD_COMPARISON", "POLLING", "ONEAUDIT"])
         recs.append(case_contest(f"c{j}", N, cr, at, rng.random() < 0.5, rng))
+    for j in range(60 if tier == "quick" else 600):
+        N = rng.randint(4, 9)
+        crs = [[rng.randint(0, N) for _ in range(rng.randint(1, 3))] for _ in range(rng.randint(2, 3))]
+        recs.append(case_audit(f"u{j}", N, crs, rng))
     # beyond the bound
     for j in range(60 if tier == "quick" else 1500):
         N = rng.randint(8, 60)
@@ -247,7 +277,8 @@ def run(pid, tier):
         r = byid[tid]
         site = {"tile": "NonnegMean.sample_size", "prefix": "NonnegMean.sample_size/prefix", "interleave": "Assertion.interleave_values",
                 "asn_comparison": "Assertion.find_sample_size/" + r.get("audit", "comparison"), "asn_polling": "Assertion.find_sample_size/POLLING",
-                "asn_data": "Assertion.find_sample_size/data", "contest": "Contest.find_sample_size/" + r.get("audit", "")}[r["kind"]]
+                "asn_data": "Assertion.find_sample_size/data", "contest": "Contest.find_sample_size/" + r.get("audit", ""),
+                "audit": "Audit.find_sample_size"}[r["kind"]]
         if r["kind"] == "contest" and r.get("style"):
             site += "/style"
         for cl in clauses:
